@@ -283,3 +283,13 @@ MUTANTS = [
     {"id": "C15-benign-table-transition-commuted", "prop": "C15", "benign": True,
      "edits": [(A, "self.states[self.lang_size * state.0 + symbol as usize]", "self.states[symbol as usize + state.0 * self.lang_size]")]},
 ]
+
+
+MUTANTS += [
+    {"id": "C15-compile-self-loop-shortcut", "prop": "C15", "expect": "R5-SUBSET",
+     "edits": [("src/automata.rs", "                let dfa_state_new = dfa_state\n                    .iter()\n                    .flat_map(|nfa_state_id| self.states[nfa_state_id].edges.get(&symbol).copied());\n",
+                "                let dfa_state_new: BTreeSet<NFAStateId> = dfa_state\n                    .iter()\n                    .flat_map(|nfa_state_id| self.states[nfa_state_id].edges.get(&symbol).copied())\n                    .collect();\n                if dfa_state_new.is_subset(&dfa_state) {\n                    dfa_edges.insert(symbol, dfa_state_id);\n                    continue;\n                }\n")]},
+    {"id": "C15-benign-compile-collect-move-set", "prop": "C15", "benign": True,
+     "edits": [("src/automata.rs", "                let dfa_state_new = dfa_state\n                    .iter()\n                    .flat_map(|nfa_state_id| self.states[nfa_state_id].edges.get(&symbol).copied());\n",
+                "                let dfa_state_new: BTreeSet<NFAStateId> = dfa_state\n                    .iter()\n                    .flat_map(|nfa_state_id| self.states[nfa_state_id].edges.get(&symbol).copied())\n                    .collect();\n")]},
+]
